@@ -171,7 +171,9 @@ def run(ctx, rep):
                 rep.violation('R1-completion-evidence', 'order', 'the notification precedes the instruction', c.fn.where())
             args = e[1]
             contract, target, value = render(args[1]), render(args[2]), args[3]
-            if 'contract.target_address' not in contract:
+            # exactly the executing contract: in a DELEGATECALL / CALLCODE frame the code's own address
+            # (bytecode_address) is another account than the one that is destroyed
+            if not contract.replace(' ', '').endswith('.contract.target_address') or 'bytecode_address' in contract or 'unwrap_or' in contract:
                 ok2 = False
                 rep.violation('R2-argument-origins', 'contract', 'the destroyed contract is reported as %s, expected interpreter.contract.target_address' % contract[:100], c.fn.where())
             # beneficiary: from a peek performed before the instruction
